@@ -20,28 +20,28 @@ import (
 )
 
 type vfProdConf struct {
-	Version          string `json:"version"`
-	Codec            int    `json:"codec"`
-	Level            int    `json:"level"` // -1000 = default
-	Acks             int16  `json:"acks"`
-	Idempotent       bool   `json:"idempotent"`
-	RetryMax         int    `json:"retryMax"`
-	BackoffUs        int    `json:"backoffUs"`
-	FlushMessages    int    `json:"flushMessages"`
-	FlushBytes       int    `json:"flushBytes"`
-	FlushFreqUs      int    `json:"flushFreqUs"`
-	FlushMaxMessages int    `json:"flushMaxMessages"`
-	MaxMessageBytes  int    `json:"maxMessageBytes"`
-	ChanBuf          int    `json:"chanBuf"`
-	MaxOpen          int    `json:"maxOpen"`
-	Partitioner      string `json:"partitioner"` // manual | hash | refhash | roundrobin | random | bad
-	ReadTimeoutMs    int    `json:"readTimeoutMs"`
-	DupAsError       bool   `json:"dupAsError"`
-	LogAppend        bool   `json:"logAppend"`
-	MaxRequestSize   int32  `json:"maxRequestSize,omitempty"`
-	NoSuccesses      bool   `json:"noSuccesses,omitempty"`
+	Version          string   `json:"version"`
+	Codec            int      `json:"codec"`
+	Level            int      `json:"level"` // -1000 = default
+	Acks             int16    `json:"acks"`
+	Idempotent       bool     `json:"idempotent"`
+	RetryMax         int      `json:"retryMax"`
+	BackoffUs        int      `json:"backoffUs"`
+	FlushMessages    int      `json:"flushMessages"`
+	FlushBytes       int      `json:"flushBytes"`
+	FlushFreqUs      int      `json:"flushFreqUs"`
+	FlushMaxMessages int      `json:"flushMaxMessages"`
+	MaxMessageBytes  int      `json:"maxMessageBytes"`
+	ChanBuf          int      `json:"chanBuf"`
+	MaxOpen          int      `json:"maxOpen"`
+	Partitioner      string   `json:"partitioner"` // manual | hash | refhash | roundrobin | random | bad
+	ReadTimeoutMs    int      `json:"readTimeoutMs"`
+	DupAsError       bool     `json:"dupAsError"`
+	LogAppend        bool     `json:"logAppend"`
+	MaxRequestSize   int32    `json:"maxRequestSize,omitempty"`
+	NoSuccesses      bool     `json:"noSuccesses,omitempty"`
 	Interceptors     []string `json:"interceptors,omitempty"` // C18: "hdr" | "mut" | "panic"; C16: "pad"
-	MetaRetryMax     int    `json:"metaRetryMax"`
+	MetaRetryMax     int      `json:"metaRetryMax"`
 }
 
 type vfTopicSpec struct {
@@ -58,7 +58,7 @@ type vfMsgSpec struct {
 	ValLen   int   `json:"valLen"`
 	NHeaders int   `json:"nHeaders"`
 	HasTs    bool  `json:"hasTs"`
-	TsOff    int   `json:"tsOff,omitempty"` // supplied timestamp = base + TsOff seconds (not monotonic in submission order)
+	TsOff    int   `json:"tsOff,omitempty"`  // supplied timestamp = base + TsOff seconds (not monotonic in submission order)
 	BadErr   bool  `json:"badErr,omitempty"` // "bad" partitioner returns an error for this message
 }
 
@@ -71,20 +71,20 @@ type vfStep struct {
 }
 
 type vfProdCase struct {
-	Conf      vfProdConf           `json:"conf"`
-	Brokers   int                  `json:"brokers"`
-	Topics    []vfTopicSpec        `json:"topics"`
-	Msgs      []vfMsgSpec          `json:"msgs"`
-	Faults    map[string][]vfFault `json:"faults"`
-	Script    []vfStep             `json:"script"`
-	CloseMode string               `json:"closeMode"` // close | async
-	Delays    map[string][]int     `json:"delays,omitempty"` // hook point -> delay class per occurrence (mod len)
-	FlushProbe bool                `json:"flushProbe,omitempty"` // C16: before closing, wait until every buffered message was sent (a configured trigger must fire without further input)
-	C12       *vfC12Ctl            `json:"c12,omitempty"`
-	StormDelays bool               `json:"stormDelays,omitempty"`
-	Recycle   bool                 `json:"recycle,omitempty"` // the application re-uses the message objects the producer hands back (C01/C05)
-	Sync      int                  `json:"sync,omitempty"`   // >0: SyncProducer variant driven from this many goroutines
-	SyncBatch bool                 `json:"syncBatch,omitempty"`
+	Conf        vfProdConf           `json:"conf"`
+	Brokers     int                  `json:"brokers"`
+	Topics      []vfTopicSpec        `json:"topics"`
+	Msgs        []vfMsgSpec          `json:"msgs"`
+	Faults      map[string][]vfFault `json:"faults"`
+	Script      []vfStep             `json:"script"`
+	CloseMode   string               `json:"closeMode"`            // close | async
+	Delays      map[string][]int     `json:"delays,omitempty"`     // hook point -> delay class per occurrence (mod len)
+	FlushProbe  bool                 `json:"flushProbe,omitempty"` // C16: before closing, wait until every buffered message was sent (a configured trigger must fire without further input)
+	C12         *vfC12Ctl            `json:"c12,omitempty"`
+	StormDelays bool                 `json:"stormDelays,omitempty"`
+	Recycle     bool                 `json:"recycle,omitempty"` // the application re-uses the message objects the producer hands back (C01/C05)
+	Sync        int                  `json:"sync,omitempty"`    // >0: SyncProducer variant driven from this many goroutines
+	SyncBatch   bool                 `json:"syncBatch,omitempty"`
 }
 
 type vfOutcome struct {
@@ -106,27 +106,27 @@ type vfPartChoice struct {
 }
 
 type vfProdRun struct {
-	c          *vfProdCase
-	sim        *vfSim
-	msgs       []*ProducerMessage
-	submitted  []int
-	outcomes   []vfOutcome
-	choices    []vfPartChoice
-	mu         sync.Mutex
-	nOutcomes  int64
-	closedOK   bool
-	hang       string
-	stacks     string
-	free       []*ProducerMessage // message objects handed back by the producer, for re-use (Recycle)
-	created    bool
-	createErr  string
-	intercepts []vfIntercept
-	panics     []string
-	syncRets   []vfSyncRet
-	unflushed  []int
-	abandoned  bool
-	stop       *vfStopper
-	eventsEnd  int64 // observable events when the script was over (dry run of C12)
+	c           *vfProdCase
+	sim         *vfSim
+	msgs        []*ProducerMessage
+	submitted   []int
+	outcomes    []vfOutcome
+	choices     []vfPartChoice
+	mu          sync.Mutex
+	nOutcomes   int64
+	closedOK    bool
+	hang        string
+	stacks      string
+	free        []*ProducerMessage // message objects handed back by the producer, for re-use (Recycle)
+	created     bool
+	createErr   string
+	intercepts  []vfIntercept
+	panics      []string
+	syncRets    []vfSyncRet
+	unflushed   []int
+	abandoned   bool
+	stop        *vfStopper
+	eventsEnd   int64 // observable events when the script was over (dry run of C12)
 	closedEarly bool
 }
 
@@ -708,35 +708,50 @@ func vfExecProd(c *vfProdCase) *vfProdRun {
 		// flushed", Config.Validate) and Close would wait for it for ever (known finding KF-C01-4, judged by C01/C12, not here):
 		// if anything is still buffered the producer is abandoned instead of closed.
 		run.idleWait(func() bool { return false })
-		sentOrDone := map[int]bool{}
-		for _, e := range run.sim.hist.snapshot() {
-			if e.Kind == "produce-part" {
-				for _, id := range e.Ids {
-					sentOrDone[id] = true
+		unsentNow := func() (unsent []int, kv int) {
+			sentOrDone := map[int]bool{}
+			for _, e := range run.sim.hist.snapshot() {
+				if e.Kind == "produce-part" {
+					for _, id := range e.Ids {
+						sentOrDone[id] = true
+					}
+				} else if e.Kind == "outcome" {
+					sentOrDone[e.N] = true
 				}
-			} else if e.Kind == "outcome" {
-				sentOrDone[e.N] = true
 			}
-		}
-		var unsent []int
-		kv := 0
-		for _, i := range run.submitted {
-			if !sentOrDone[i] {
-				run.abandoned = true
-				unsent = append(unsent, i)
-				kv += vfMsgKVBytes(i, c)
+			for _, i := range run.submitted {
+				if !sentOrDone[i] {
+					unsent = append(unsent, i)
+					kv += vfMsgKVBytes(i, c)
+				}
 			}
+			return
 		}
 		// ... unless a trigger has certainly fired. Buffers are per broker and the partition of an unsent message is not
 		// observable, so the count and the bytes are judged by pigeonhole over the brokers; key+value bytes are a lower bound
 		// of what the producer counts per message. One buffer per broker only holds while nothing but latency happens: after
 		// a failed request (a leader moved) a broker can have a second, abandoned worker with a buffer of its own.
-		if nb := c.Brokers; len(unsent) > 0 && nb > 0 && run.calm() {
+		fired := func(unsent []int, kv int) bool {
 			cc := &c.Conf
-			if (cc.FlushMessages > 0 && len(unsent) >= nb*(cc.FlushMessages-1)+1) || (cc.FlushBytes > 0 && kv >= nb*cc.FlushBytes) {
-				run.unflushed = unsent
-				run.stacks = vfcore.Stacks()
+			nb := c.Brokers
+			return nb > 0 && len(unsent) > 0 && ((cc.FlushMessages > 0 && len(unsent) >= nb*(cc.FlushMessages-1)+1) || (cc.FlushBytes > 0 && kv >= nb*cc.FlushBytes))
+		}
+		unsent, kv := unsentNow()
+		if fired(unsent, kv) && run.calm() {
+			// idleWait above is a scheduling aid with a wall-clock cap (the first version of this clause judged right after it,
+			// which on a loaded machine reported messages that were merely still on their way): the verdict needs the
+			// quiescence rule - nothing pending in the simulator and no relevant event for Tq
+			if !run.waitQuiescent(func() bool { u, k := unsentNow(); return !fired(u, k) }, nil) {
+				unsent, kv = unsentNow()
+				if fired(unsent, kv) && run.calm() {
+					run.unflushed = unsent
+					run.stacks = vfcore.Stacks()
+				}
 			}
+			unsent, kv = unsentNow()
+		}
+		if len(unsent) > 0 {
+			run.abandoned = true
 		}
 		if run.abandoned {
 			return run
